@@ -80,6 +80,11 @@ def run(ck):
     except af.TranslationError as e:
         ck.obligation('attrflow translator recognises the source', 'translation', False, str(e))
 
+    # ---------------- (a') tree part of the state dict: regenerated tables satisfy the hypotheses of the round-trip theorem ----------------
+    from harness import stateops
+    sd_defs, sd_found = stateops.check_translation(ck, set(fg.EXEMPT_LEAF_PRED))
+    sd_cases, sd_meta = [], {}
+
     # ---------------- (b) differential ----------------
     rng = np.random.default_rng(ck.seed + 1111)
     kernels = [('l2', {}), ('l2_high_dim', {}), ('l1', {}), ('lpq', dict(norm_p=1.5)), ('sum_power_laplace', {})]
@@ -186,6 +191,13 @@ def run(ck):
         with xr.quiet():
             m1.load_state_dict(sd2, torch.tensor(X))
         o1 = outputs(m1)
+        if sd_found is not None and i < ck.n(8, 30):
+            # model's export / load run in Coq on THIS fitted tree vs the real param tree / the real loaded tree; centres hypothesis of the theorem decided on it
+            try:
+                sd_cases += stateops.tree_cases(f'f{i}', src.trees, sd['param_trees'], m1.trees, torch.tensor(X), sd_found)
+                sd_meta[f'f{i}'] = desc
+            except Exception as e:
+                ck.obligation(f'state-dict correspondence: the trees of fit {i} are expressible in the model', 'correspondence', False, repr(e))
         with xr.quiet():
             sd3 = copy.deepcopy(m1.get_state_dict())
         m2 = xr.xRFM(**copy.deepcopy(ctor))
@@ -209,3 +221,16 @@ def run(ck):
                                  f'{name} split_temperature={m2.split_temperature if name == "load of a load" else m1.split_temperature} on {desc}',
                                  dict(desc, what=what, which=name, maxdiff=diff, src_T=src.split_temperature),
                                  key=json.dumps(dict(site='roundtrip', tuned_T=(src.split_temperature is not None and tuned), what=what)))
+    if sd_cases:
+        res = ck.run_bool_cases('statedict', stateops.RUN_HEADER + sd_defs, sd_cases, shard=9)
+        bad = [k for k, v in res.items() if v is not True]
+        ck.obligation(f'correspondence: on {len(sd_cases) // 3} real fitted trees the model\'s export == the real param tree, the model\'s load of it == the real loaded tree '
+                      f'(node dicts, restored attributes, gathered centres), and the fitted tree meets the centres hypothesis of the round-trip theorem (vm_compute)',
+                      'correspondence', not bad, f'failing cases: {bad[:6]}')
+        for k in bad[:3]:
+            tag, what = k.split(':')
+            d_ = sd_meta.get(tag.rsplit('_', 1)[0], {})
+            ck.violation({'export': 'the real exported tree differs from the model\'s export of the fitted tree (an entry is not a plain copy of what the table says)',
+                          'load': 'the real loaded tree differs from the model\'s load of the exported tree',
+                          'view': 'prediction reads other values on the loaded tree than on the source tree, or a fitted leaf\'s centres are not the training rows its index list names'}[what]
+                         + f' (tree {tag}) on {d_}', dict(d_, case=k), key=json.dumps(dict(site='statedict-correspondence', what=what)))
